@@ -291,8 +291,8 @@ pub fn eval_node<F: FnMut(&GraphColoredVertices, &str)>(
 /// The `graph` gives the context for evaluating the quantifier node itself, while `graph_to_propagate` is
 /// the graph that was used to evaluate the child node. The two graphs might be different, depending on
 /// the quantifier's domain. Having two distinct versions allows to evaluate the child node on a different
-/// graph with smaller unit bdd, thus limiting the validity domain of the `variable`. Here, it is
-/// currently important just for the `forall` quantifier.
+/// graph with smaller unit bdd, thus limiting the validity domain of the `variable`. The child's
+/// result is always interpreted relative to the unit set of `graph_to_propagate`.
 fn eval_hybrid_quantifier(
     graph: &SymbolicAsyncGraph,
     graph_to_propagate: &SymbolicAsyncGraph,
@@ -301,8 +301,18 @@ fn eval_hybrid_quantifier(
     child_evaluated: &GraphColoredVertices,
 ) -> GraphColoredVertices {
     match operator {
-        HybridOp::Bind => eval_bind(graph, child_evaluated, variable),
-        HybridOp::Exists => eval_exists(graph, child_evaluated, variable),
+        // only the part of the child's result inside the (possibly restricted) unit set of the graph
+        // it was computed on is meaningful; the rest must not survive the projection of the variable
+        HybridOp::Bind => eval_bind(
+            graph,
+            &child_evaluated.intersect(graph_to_propagate.unit_colored_vertices()),
+            variable,
+        ),
+        HybridOp::Exists => eval_exists(
+            graph,
+            &child_evaluated.intersect(graph_to_propagate.unit_colored_vertices()),
+            variable,
+        ),
         // evaluate `forall x in A. phi` as `not exists x in A. not phi`
         // do it directly there so that the domain for negations are handled correctly
         HybridOp::Forall => eval_neg(
